@@ -18,7 +18,15 @@ def shard(sh: Shard, seed, wseed, cases):
             sh.inconc("threaded rig could not connect")
             return
         spa, s = rig.spa, rig.s
-        for case in cases:
+        # a case may name a transfer to make right after it on the same structure (state left over
+        # by a transfer that failed part way must not leak into the next one)
+        expanded = []
+        for c in cases:
+            expanded.append(c)
+            if c.get("follow"):
+                expanded.append({"start": c["follow"][0], "length": c["follow"][1], "fault": {"kind": "none"}, "id": f"{c['id']}f"})
+                sh.count("threaded_follow_up_transfers")
+        for case in expanded:
             cr = rng("C01tcase", seed, wseed, case["id"])
             start, length = case["start"], case["length"]
             S, B0 = make_blocks(cr, cr.choice(["random", "tags"]))
@@ -146,7 +154,13 @@ def gen(tier, seed):
                 cases.append({"start": st, "length": L, "fault": {"kind": kind, "idx": i, "attempts": [1]}})
         cases.append({"start": st, "length": L, "fault": {"kind": "drop-req", "attempts": [1, 2]}})
         cases.append({"start": st, "length": L, "fault": {"kind": "drop-last", "attempts": [1, 2]}})
-        cases.append({"start": st, "length": L, "fault": {"kind": "blackout"}})
+        cases.append({"start": st, "length": L, "fault": {"kind": "blackout"}, "follow": (st, L)})
+        # every attempt loses a segment (its tail / one in the middle): the transfer fails after
+        # having collected data, and a fault-free transfer follows on the same structure
+        allatt = list(range(1, 40))
+        cases.append({"start": st, "length": L, "fault": {"kind": "drop-last", "attempts": allatt}, "follow": (st, L)})
+        if n > 2:
+            cases.append({"start": st, "length": L, "fault": {"kind": "drop-seg", "idx": n // 2, "attempts": allatt}, "follow": (0, 1024)})
     for _ in range(30 if tier == "quick" else 2000):
         st = r.choice([0, 256, r.randrange(900)])
         cases.append({"start": st, "length": r.randrange(40, 1025 - st), "fault": {"kind": "random", "p_drop": r.choice([0.02, 0.1, 0.3]), "p_dup": r.choice([0, 0.1]), "max_delay": r.choice([0.03, 0.3])}})
@@ -161,6 +175,7 @@ def add(run, tier, seed):
     jobs = [{"seed": seed, "wseed": i, "cases": cases[i::n]} for i in range(n) if cases[i::n]]
     run.absorb(run_shards("checks.c01_threaded", "shard", jobs, timeout=3000))
     run.need(run.counters.get("threaded_success", 0) > 60 and run.counters.get("threaded_failure", 0) > 2, "threaded structure: too few successful/failed transfers")
+    run.need(run.counters.get("threaded_follow_up_transfers", 0) >= 6, "threaded structure: no fault-free transfer right after a failed one")
     fk = run.sets.get("threaded_fault_kinds", set())
     for k in ("none", "drop-seg", "dup-seg", "swap", "drop-req", "drop-last", "blackout", "random"):
         run.need(k in fk, f"threaded structure: fault kind {k} never exercised")
